@@ -67,6 +67,10 @@ def enumerate_cases(tier, shard=0, nshards=1):
             for entry in range(0, prefix + length):
                 for via in ('ref', 'range'):
                     out.append(_cycle_case(prefix, length, entry, via))
+    # the same cycles with every reference inside the CONDITION of an IF
+    # (conditions are always evaluated: the cycle must be reported, not
+    # turned into an error value)
+    out.extend([dict(c, mode='cond') for c in out])
     # long cycles / long prefixes (well inside Python's recursion limit)
     for length, prefix in ((10, 0), (26, 3), (27, 0), (40, 10), (1, 60),
                            (60, 0), (2, 50), (102, 0), (150, 20), (200, 0)):
@@ -485,9 +489,14 @@ def judge(case):
         # references only (a range stands for its first cell)
         cells = {c: [['ref', _targets(r)[0]] for r in refs]
                  for c, refs in cells.items()}
+    condmode = case.get('mode') == 'cond'
     for c, refs in cells.items():
         d[_full(c)] = (render_pass if passmode else render)(
             refs, _full(c).split('!')[0])
+        if condmode:
+            # =IF(<sum of the references>+1>0,1,2): with positive constants
+            # every acyclic cell is 1
+            d[_full(c)] = '=IF(%s>0,1,2)' % d[_full(c)][1:]
     for c, v in consts.items():
         d[_full(c)] = v
     try:
@@ -533,6 +542,9 @@ def judge(case):
         v = ref_value_pass(cells, consts, start)
         want = ('Z',) if v is None else ('N', float(v))
         res.labels += ('pass-through', 'blank' if v is None else 'number')
+    elif condmode:
+        want = ('N', 1.0)
+        res.labels += ('in-if-condition',)
     else:
         want = ('N', float(ref_value(cells, consts, start)))
     shared = sim_calls > len(set(cells) | set(consts)) + 1
